@@ -10,6 +10,18 @@ Local Open Scope Z_scope.
 Definition keeps (k k' : kcp) : Prop :=
   (rto_inv k -> rto_inv k') /\ rx_minrto k' = rx_minrto k.
 
+Lemma alen_nil_lt_mtu : forall k, inv k -> alen [] < mtu k / c_IKCP_OVERHEAD.
+Proof.
+  intros k Hinv. pose proof (I_mtu _ Hinv) as Hm. unfold alen, c_IKCP_OVERHEAD in *. cbn [length Z.of_nat].
+  assert (1 <= mtu k / 24) by (apply Z.div_le_lower_bound; lia). lia.
+Qed.
+
+Lemma alen_nil_le : forall (l : list (Z * Z)) d, alen [] <= alen l + blen d / c_IKCP_OVERHEAD.
+Proof.
+  intros l d. unfold alen, blen, c_IKCP_OVERHEAD. cbn [length Z.of_nat].
+  pose proof (Zle_0_nat (length l)). assert (0 <= Z.of_nat (length d) / 24) by (apply Z.div_pos; lia). lia.
+Qed.
+
 Lemma input_ok_full :
   forall k d regular nd now, inv k -> is_byte_list d ->
     exists k' r o, input k d regular nd now = Ok (k', r, o) /\ inv k' /\ Forall (dgram_ok k') o /\
@@ -21,34 +33,25 @@ Proof.
   destruct (input_pre_ok k d regular nd now Hinv Hd)
     as (k1 & r & fr & Hpre & Hinv1 & Hrto1 & Hmtu1 & Hmin1 & Hconv1 & Hal1 & Hal2).
   unfold input. rewrite Hpre.
+  assert (Hfl : forall ft, ft = FLUSH_FULL \/ ft = FLUSH_ACKONLY ->
+            exists k' o, match flush k1 ft now with Ok (k', _, o) => Ok (k', r, o) | Panic w => Panic w end = Ok (k', r, o) /\
+              inv k' /\ Forall (dgram_ok k') o /\ keeps k k' /\ mtu k' = mtu k /\
+              alen (acklist k') <= alen (acklist k) + blen d / c_IKCP_OVERHEAD /\
+              (r = 0 -> alen (acklist k') < mtu k' / c_IKCP_OVERHEAD)).
+  { intros ft Hft.
+    destruct (flush_ok k1 ft now Hinv1)
+      as (k2 & nx & o & Hfl & Hinv2 & Hdg & Hrto2 & Hmtu2 & Hmin2 & Hrtoeq & Hconv2).
+    rewrite Hfl. exists k2, o.
+    pose proof (flush_acklist _ _ _ _ _ _ Hfl Hft) as Hal.
+    split; [reflexivity|]. split; [exact Hinv2|]. split; [exact Hdg|].
+    split; [split; [auto | congruence]|]. split; [congruence|].
+    rewrite Hal. split; [apply alen_nil_le | intros _; apply alen_nil_lt_mtu; exact Hinv2]. }
   destruct fr.
-  - exists k1, r, []. repeat split; auto. intros Hr. apply Hal2; auto.
-  - destruct (flush_ok k1 FLUSH_ACKONLY now Hinv1)
-      as (k2 & nx & o & Hfl & Hinv2 & Hdg & Hrto2 & Hmtu2 & Hmin2 & Hrtoeq & Hconv2).
-    rewrite Hfl. exists k2, r, o. repeat split; auto.
-    + congruence.
-    + congruence.
-    + rewrite (flush_acklist _ _ _ _ _ _ Hfl (or_intror eq_refl)). unfold alen at 1. cbn [length Z.of_nat].
-      pose proof (Zle_0_nat (length (acklist k))). unfold alen.
-      assert (0 <= blen d / c_IKCP_OVERHEAD).
-      { apply Z.div_pos. unfold blen. lia. unfold c_IKCP_OVERHEAD. lia. }
-      lia.
-    + intros _. rewrite (flush_acklist _ _ _ _ _ _ Hfl (or_intror eq_refl)). unfold alen. cbn [length Z.of_nat].
-      pose proof (I_mtu _ Hinv2) as Hm. unfold c_IKCP_OVERHEAD in *.
-      assert (1 <= mtu k2 / 24). { apply Z.div_le_lower_bound; lia. } lia.
-  - destruct (flush_ok k1 FLUSH_FULL now Hinv1)
-      as (k2 & nx & o & Hfl & Hinv2 & Hdg & Hrto2 & Hmtu2 & Hmin2 & Hrtoeq & Hconv2).
-    rewrite Hfl. exists k2, r, o. repeat split; auto.
-    + congruence.
-    + congruence.
-    + rewrite (flush_acklist _ _ _ _ _ _ Hfl (or_introl eq_refl)). unfold alen at 1. cbn [length Z.of_nat].
-      pose proof (Zle_0_nat (length (acklist k))). unfold alen.
-      assert (0 <= blen d / c_IKCP_OVERHEAD).
-      { apply Z.div_pos. unfold blen. lia. unfold c_IKCP_OVERHEAD. lia. }
-      lia.
-    + intros _. rewrite (flush_acklist _ _ _ _ _ _ Hfl (or_introl eq_refl)). unfold alen. cbn [length Z.of_nat].
-      pose proof (I_mtu _ Hinv2) as Hm. unfold c_IKCP_OVERHEAD in *.
-      assert (1 <= mtu k2 / 24). { apply Z.div_le_lower_bound; lia. } lia.
+  - exists k1, r, []. split; [reflexivity|]. split; [exact Hinv1|]. split; [constructor|].
+    split; [split; [exact Hrto1 | exact Hmin1]|]. split; [exact Hmtu1|]. split; [exact Hal1|].
+    intros Hr. apply Hal2; auto.
+  - destruct (Hfl FLUSH_ACKONLY (or_intror eq_refl)) as (k2 & o & H & Hrest). exists k2, r, o. split; [exact H | exact Hrest].
+  - destruct (Hfl FLUSH_FULL (or_introl eq_refl)) as (k2 & o & H & Hrest). exists k2, r, o. split; [exact H | exact Hrest].
 Qed.
 
 Lemma input_ok :
@@ -75,32 +78,51 @@ Qed.
 Lemma inv_set_timer' : forall k st tsf upd, inv k -> inv (set_timer k st tsf upd).
 Proof. intros. apply inv_set_timer; assumption. Qed.
 
+Lemma keeps_eq : forall k k', rx_rto k' = rx_rto k -> rx_minrto k' = rx_minrto k -> keeps k k'.
+Proof. intros k k' H1 H2. split; [unfold rto_inv; intros; congruence | exact H2]. Qed.
+
+Lemma keeps_refl : forall k, keeps k k.
+Proof. intros k. split; auto. Qed.
+
+Lemma keeps_trans : forall a b c, keeps a b -> keeps b c -> keeps a c.
+Proof. intros a b c [H1 H2] [H3 H4]. split; [auto | congruence]. Qed.
+
+Lemma set_timer_keeps : forall k st tsf upd, keeps k (set_timer k st tsf upd) /\ mtu (set_timer k st tsf upd) = mtu k.
+Proof. intros k st tsf upd. destruct k; split; [apply keeps_eq|]; reflexivity. Qed.
+
 Lemma update_ok :
   forall k now, inv k ->
     exists k' o, update k now = Ok (k', o) /\ inv k' /\ Forall (dgram_ok k') o /\ keeps k k' /\ mtu k' = mtu k.
 Proof.
   intros k now Hinv. unfold update.
   set (k1 := if updated k =? 0 then set_timer k (state k) now 1 else k).
-  assert (H1 : inv k1 /\ rx_rto k1 = rx_rto k /\ rx_minrto k1 = rx_minrto k /\ mtu k1 = mtu k).
-  { unfold k1. destruct (updated k =? 0); [split; [apply inv_set_timer'; auto | destruct k; cbn; auto] | auto]. }
-  destruct H1 as (Hi1 & Hr1 & Hm1 & Hmt1).
+  assert (H1 : inv k1 /\ keeps k k1 /\ mtu k1 = mtu k).
+  { unfold k1. destruct (updated k =? 0).
+    - split; [apply inv_set_timer'; auto | apply set_timer_keeps].
+    - split; [auto | split; [apply keeps_refl | reflexivity]]. }
+  destruct H1 as (Hi1 & Hk1 & Hmt1).
   set (p := if (itimediff now (ts_flush k1) >=? 10000) || (itimediff now (ts_flush k1) <? -10000)
             then (set_timer k1 (state k1) now (updated k1), 0) else (k1, itimediff now (ts_flush k1))).
-  assert (H2 : inv (fst p) /\ rx_rto (fst p) = rx_rto k /\ rx_minrto (fst p) = rx_minrto k /\ mtu (fst p) = mtu k).
+  assert (H2 : inv (fst p) /\ keeps k (fst p) /\ mtu (fst p) = mtu k).
   { unfold p. destruct ((itimediff now (ts_flush k1) >=? 10000) || (itimediff now (ts_flush k1) <? -10000)); cbn [fst].
-    - split; [apply inv_set_timer'; auto | destruct k1; cbn in *; auto].
+    - split; [apply inv_set_timer'; auto|].
+      destruct (set_timer_keeps k1 (state k1) now (updated k1)) as [Ha Hb].
+      split; [eapply keeps_trans; eauto | congruence].
     - auto. }
-  destruct p as (k2, slap). cbn [fst] in H2. destruct H2 as (Hi2 & Hr2 & Hm2 & Hmt2).
+  destruct p as (k2, slap). cbn [fst] in H2. destruct H2 as (Hi2 & Hk2 & Hmt2).
   destruct (slap >=? 0).
   - match goal with |- context [flush ?kk FLUSH_FULL now] => set (k3 := kk) end.
-    assert (H3 : inv k3 /\ rx_rto k3 = rx_rto k /\ rx_minrto k3 = rx_minrto k /\ mtu k3 = mtu k).
-    { unfold k3. split; [apply inv_set_timer'; auto | destruct k2; cbn in *; auto]. }
-    destruct H3 as (Hi3 & Hr3 & Hm3 & Hmt3).
+    assert (H3 : inv k3 /\ keeps k k3 /\ mtu k3 = mtu k).
+    { unfold k3. split; [apply inv_set_timer'; auto|].
+      match goal with |- context [set_timer k2 ?a ?b ?c] => destruct (set_timer_keeps k2 a b c) as [Ha Hb] end.
+      split; [eapply keeps_trans; eauto | congruence]. }
+    destruct H3 as (Hi3 & Hk3 & Hmt3).
     destruct (flush_ok k3 FLUSH_FULL now Hi3)
       as (k4 & nx & o & Hfl & Hinv4 & Hdg & Hrto4 & Hmtu4 & Hmin4 & Hrtoeq & Hconv4).
-    rewrite Hfl. exists k4, o. repeat split; auto; try congruence.
-    intros Hr. apply Hrto4. unfold rto_inv in *. congruence.
-  - exists k2, []. repeat split; auto. intros Hr. unfold rto_inv in *. congruence.
+    rewrite Hfl. exists k4, o.
+    split; [reflexivity|]. split; [exact Hinv4|]. split; [exact Hdg|].
+    split; [eapply keeps_trans; [exact Hk3 | split; [exact Hrto4 | exact Hmin4]] | congruence].
+  - exists k2, []. split; [reflexivity|]. split; [exact Hi2|]. split; [constructor|]. split; [exact Hk2 | exact Hmt2].
 Qed.
 
 (* ---- one step ---- *)
@@ -111,29 +133,32 @@ Lemma step_ok_full :
 Proof.
   intros k o Hinv Hop. destruct o as [b|n|d reg nd now|full now|now|now|m|nd iv rs nc]; cbn [step op_ok] in *.
   - destruct (send_ok k b Hinv Hop) as (k' & r & Hs & Hi & Hr & Hm & Hmin & Hrto).
-    rewrite Hs. exists k', (mkOut r [] []). repeat split; auto. constructor.
+    rewrite Hs. exists k', (mkOut r [] []).
+    split; [reflexivity|]. split; [exact Hi|]. split; [constructor|]. intros _. split; [exact Hr | exact Hmin].
   - pose proof (recv_ok k n Hinv) as H. destruct (recv k n) as ((k', r), d).
     destruct H as (Hi & Hr & Hm & Hmin & Hrto).
-    exists k', (mkOut r d []). repeat split; auto. constructor.
+    exists k', (mkOut r d []).
+    split; [reflexivity|]. split; [exact Hi|]. split; [constructor|]. intros _. split; [exact Hr | exact Hmin].
   - destruct (input_ok_full k d reg nd now Hinv Hop) as (k' & r & o & Hin & Hi & Ho & Hk & _).
-    rewrite Hin. exists k', (mkOut r [] o). repeat split; auto; apply Hk.
+    rewrite Hin. exists k', (mkOut r [] o).
+    split; [reflexivity|]. split; [exact Hi|]. split; [exact Ho|]. intros _. exact Hk.
   - destruct (flush_ok k (if full then FLUSH_FULL else FLUSH_ACKONLY) now Hinv)
       as (k' & nx & o & Hfl & Hi & Hdg & Hrto & Hmtu & Hmin & Hrtoeq & Hconv).
-    rewrite Hfl. exists k', (mkOut nx [] o). repeat split; auto.
+    rewrite Hfl. exists k', (mkOut nx [] o).
+    split; [reflexivity|]. split; [exact Hi|]. split; [exact Hdg|]. intros _. split; [exact Hrto | exact Hmin].
   - destruct (update_ok k now Hinv) as (k' & o & Hu & Hi & Ho & Hk & _).
-    rewrite Hu. exists k', (mkOut 0 [] o). repeat split; auto; apply Hk.
-  - exists k, (mkOut (check k now) [] []). repeat split; auto. constructor.
+    rewrite Hu. exists k', (mkOut 0 [] o).
+    split; [reflexivity|]. split; [exact Hi|]. split; [exact Ho|]. intros _. exact Hk.
+  - exists k, (mkOut (check k now) [] []).
+    split; [reflexivity|]. split; [exact Hinv|]. split; [constructor|]. intros _. apply keeps_refl.
   - pose proof (setmtu_spec k m Hinv) as Hs. pose proof (setmtu_ok k m Hinv) as Hk.
     destruct (set_mtu k m) as (k', r).
-    exists k', (mkOut r [] []). repeat split; try (constructor; fail).
-    + destruct Hs as [(_ & _ & Hi) | (_ & He)]; [auto | subst; auto].
-    + apply Hk.
-    + apply Hk.
-  - exists (set_nodelay k nd iv rs nc), (mkOut 0 [] []). repeat split.
-    + apply nodelay_inv; auto.
-    + constructor.
-    + intros [].
-    + intros [].
+    exists k', (mkOut r [] []).
+    split; [reflexivity|]. split.
+    + destruct Hs as [(_ & _ & Hi) | (_ & He)]; [exact Hi | subst; exact Hinv].
+    + split; [constructor|]. intros _. destruct Hk as (Ha & Hb & Hc). split; [exact Ha | exact Hb].
+  - exists (set_nodelay k nd iv rs nc), (mkOut 0 [] []).
+    split; [reflexivity|]. split; [apply nodelay_inv; exact Hinv|]. split; [constructor|]. intros [].
 Qed.
 
 Lemma step_ok :
@@ -183,8 +208,9 @@ Proof.
   - inversion Hops as [|? ? Ho Ht]; subst.
     destruct (step_ok k o Hinv Ho) as (k1 & x & Hs & Hi1 & Hout).
     destruct (IH k1 Hi1 Ht) as (k2 & xs & Hr & Hi2 & Hall).
-    exists k2, (x :: xs). cbn [run]. rewrite Hs, Hr. repeat split; auto.
-    constructor; auto.
+    exists k2, (x :: xs). cbn [run]. rewrite Hs, Hr.
+    split; [reflexivity|]. split; [exact Hi2|].
+    constructor; [|exact Hall].
     unfold out_ok in Hout. eapply Forall_impl; [|exact Hout].
     intros d (Hd & _). pose proof (I_mtu _ Hi1). lia.
 Qed.
